@@ -378,3 +378,25 @@ def more_rules(repo, rep, tm, xd, conv, entries, is_sub) -> None:
                 why = "the lexicaliser %s never writes the XSD spellings INF / NaN (string constants found: %s)" % (c, consts[:6])
             rep.ob("C09.h-lexicaliser-where-str-is-not-xsd", tm, "_GenericPythonToXSDRules", "%s -> %s lexicaliser %s" % (t, d, c), ok,
                    "lexicaliser present and writes INF / NaN" if ok else why, node=e)
+
+
+_run_base = run
+
+
+def run(repo: Repo, rep: Report) -> None:  # noqa: F811
+    _run_base(repo, rep)
+    rep.rule("C09.i-no-str-of-bytes",
+             "in rdflib/term.py no one-argument str(x) is applied to an expression whose static type includes bytes: in Python 3 that is the repr \"b'...'\" and never raises, so a "
+             "lexical form given as bytes must be decoded (str(x, 'utf-8') / x.decode()) - the `except UnicodeDecodeError` idiom inherited from Python 2 is dead code", floor=20)
+    tm = repo.mod("rdflib.term")
+    n = 0
+    for c in ast.walk(tm.tree):
+        if isinstance(c, ast.Call) and isinstance(c.func, ast.Name) and c.func.id == "str" and len(c.args) == 1 and not c.keywords:
+            tf = repo.typed.type_of(tm.name, c.args[0])
+            if tf is None:
+                continue
+            n += 1
+            bad = any(i == "builtins.bytes" or i == "builtins.bytearray" for i in tf.items)
+            # narrowed by an isinstance(x, bytes) test in an enclosing if: mypy already removed bytes from the type in that case
+            rep.ob("C09.i-no-str-of-bytes", tm, tm.qual_of(c) or "<module>", c, not bad,
+                   "argument cannot be bytes" if not bad else "%s may be bytes here (%s): the result is the text \"b'...'\", e.g. Literal(b'abc') gets the lexical form \"b'abc'\"" % (norm(c.args[0]), "|".join(tf.items)), node=c)
